@@ -54,6 +54,15 @@ def family_cases(rng):
             out.append({"family": fam, "type": typ, "enc": enc, "nulls": pattern, "typeset": typeset, "expect": exp, "exact": exact,
                         "recipe": {"values": vals, "dtype": dtype, "index": rng.choice(["default", "str", "dup"]),
                                    "name": rng.choice([None, "c"]), "stream": "family:%s:%s:%s" % (fam, enc, pattern)}})
+        if sentinels and rng.random() < 0.12:
+            # a long column (>= 1000 rows) that is almost entirely missing: the few values still decide the type
+            s = rng.choice(sentinels)
+            k = rng.randint(0, 1100)
+            vals = [s] * k + list(values) + [s] * (1200 - k)
+            exp = ([None] * k + list(expect) + [None] * (1200 - k)) if expect is not None else None
+            out.append({"family": fam, "type": typ, "enc": enc, "nulls": "long-sparse", "typeset": typeset, "expect": exp, "exact": exact,
+                        "recipe": {"values": vals, "dtype": dtype, "index": "default", "name": None,
+                                   "stream": "family:%s:%s:long-sparse" % (fam, enc)}})
 
     n = rng.choice([1, 2, 3, 5, 7])
     ints = [rng.choice([3, -7, 12, 250, 1000003, 0, 1, 41]) for _ in range(n)]
